@@ -586,7 +586,12 @@ func (repo *Repository) CheckHeader(ctx context.Context,
 
 	// Lookup in larger map
 	if height, exists := repo.heights[hash]; exists {
-		return height, true, nil
+		isLongest, err := repo.isInLongestHistory(ctx, hash, height)
+		if err != nil {
+			return -1, false, err
+		}
+
+		return height, isLongest, nil
 	}
 
 	return -1, false, ErrUnknownHeader
@@ -598,6 +603,22 @@ func (repo *Repository) CheckHeader(ctx context.Context,
 func (repo *Repository) isInLongest(hash bitcoin.Hash32, height int) bool {
 	at := repo.longest.AtHeight(height)
 	return at != nil && at.Hash.Equal(&hash)
+}
+
+// isInLongestHistory returns true if the most proof of work chain has the specified hash at the
+// specified height. The larger map also retains the headers that were trimmed from the branches,
+// so a hash being in it doesn't mean the header is still in the most proof of work chain.
+func (repo *Repository) isInLongestHistory(ctx context.Context, hash bitcoin.Hash32,
+	height int) (bool, error) {
+	header, err := repo.header(ctx, height)
+	if err != nil {
+		if errors.Cause(err) == ErrHeightBeyondTip {
+			return false, nil
+		}
+		return false, errors.Wrap(err, "header")
+	}
+
+	return header.BlockHash().Equal(&hash), nil
 }
 
 // GetHeader returns the header with the specified hash with its block height and whether it is
@@ -622,6 +643,11 @@ func (repo *Repository) GetHeader(ctx context.Context,
 		header, err := repo.header(ctx, height)
 		if err != nil {
 			return nil, -1, false, err
+		}
+
+		if !header.BlockHash().Equal(&hash) {
+			// The requested header is no longer in the most proof of work chain or in memory.
+			return nil, -1, false, ErrHeaderNotAvailable
 		}
 
 		return header, height, true, nil
